@@ -135,3 +135,9 @@ def check_from_conjunctions(ctx, lib, rule, fn_suffix, unit, new, inner):
                 okmap = True
     ctx.expect(okmap, rule, fn["npath"] + "|clause-conj", site_of(fn), "each clause must be turned into a conjunction with %s(clause)" % inner)
     streams.check_right_fold(ctx, lib, rule, fn_suffix, unit, new)
+
+
+def run_once(ctx, tier):
+    import witness
+
+    witness.run(ctx, "C05", ['w1_dfs_barrier'])
